@@ -4,6 +4,7 @@ package main
 import (
 	"os"
 	"strings"
+	"sync/atomic"
 
 	"github.com/safing/portbase/log"
 
@@ -113,7 +114,7 @@ func main() {
 			return "corr:" + strings.Fields(line)[0]
 		},
 		Extra: func(r *hxlib.Run) map[string]any {
-			return map[string]any{"stress_getter_calls": stressCalls, "stress_sets": stressSets}
+			return map[string]any{"stress_getter_calls": atomic.LoadInt64(&stressCalls), "stress_sets": atomic.LoadInt64(&stressSets)}
 		},
 	})
 }
